@@ -400,7 +400,10 @@ def stage_srcslice(ws):
         m = re.search(r'first_diff = (.*?)\n\s+: ', out, re.S)
         u['first_diff'] = None if m is None or re.sub(r'None|[(),\s]', '', m.group(1)) == '' else ' '.join(m.group(1).split())
         u['assumptions'] = 'closed' if 'Closed under the global context' in out else None
-        u['status'] = 'proved' if rc == 0 and u['assumptions'] == 'closed' and u['first_diff'] is None else 'unproved'
+        # proved: the for-all theorem checked.  differs: Coq exhibits an argument on which the translated function and the
+        # model disagree.  unproved: no such argument among those enumerated, but the proof script did not go through.
+        u['status'] = 'proved' if rc == 0 and u['assumptions'] == 'closed' and u['first_diff'] is None else \
+            'differs' if u['first_diff'] is not None else 'unproved'
         if u['status'] != 'proved':
             u['coqc'] = (err or out)[-1500:]
         del u['coq']
